@@ -1,14 +1,8 @@
 (** Runner for C14 cases:  "C14 <v> <pre>"  (pre = "_" or a value already
     stored in the claims-set before the setter is called). *)
 From Coq Require Import String.
-From PSA Require Import Base Lines Lifecycle Regex Claims Obs.
+From PSA Require Import Base Lines Lifecycle Regex Claims Obs CaseClaims.
 Open Scope N_scope.
-
-Definition parse_opt_N (t : bytes) : option (option N) :=
-  match t with
-  | [x5f] => Some None
-  | _ => match parse_N t with Some n => Some (Some n) | None => None end
-  end.
 
 Definition c14_profile (cfg : ccfg) (c0 : claims) (v : N) (pre : option N) : list bytes :=
   let '(c1, r) := set_lc cfg (upd_lc c0 pre) v in
